@@ -282,6 +282,38 @@ func GenSheet(t *rapid.T, cfg GenConfig, name string) Sheet {
 		}
 		s.Cells = append(s.Cells, c)
 	}
+	// stale values in covered cells: a producer that merges cells without clearing them leaves the old values in
+	// the file; a spreadsheet shows the top-left value only (18.3.1.55 mergeCell). Only inside the rectangle the
+	// displayed values span, so that the used range stays what the displayed values say.
+	if len(s.Merges) > 0 && rapid.IntRange(0, 3).Draw(t, "staleCovered") == 0 {
+		g := s.Grid()
+		if len(g) > 0 {
+			minR, maxR, minC, maxC := MaxRow, 0, MaxCol, 0
+			for k := range g {
+				minR, maxR, minC, maxC = min(minR, k[0]), max(maxR, k[0]), min(minC, k[1]), max(maxC, k[1])
+			}
+			for _, m := range s.Merges {
+				for r := m.R1; r <= m.R2; r++ {
+					for c := m.C1; c <= m.C2; c++ {
+						if (r == m.R1 && c == m.C1) || r < minR || r > maxR || c < minC || c > maxC || rapid.IntRange(0, 2).Draw(t, "stale") != 0 {
+							continue
+						}
+						keep := s.Cells[:0:0]
+						for _, x := range s.Cells {
+							if !(x.Row == r && x.Col == c) {
+								keep = append(keep, x)
+							}
+						}
+						st := Cell{Row: r, Col: c, Kind: Number, Text: fmt.Sprintf("9%d%d", r%10, c%10), Stale: true}
+						if rapid.Bool().Draw(t, "staleString") {
+							st = Cell{Row: r, Col: c, Kind: Inline, Text: fmt.Sprintf("old%dx%d", r, c), Stale: true}
+						}
+						s.Cells = append(keep, st)
+					}
+				}
+			}
+		}
+	}
 	// empty <row/> elements between and after the data
 	if rapid.IntRange(0, 3).Draw(t, "emptyRows") == 0 {
 		used := map[int]bool{}
@@ -462,6 +494,7 @@ func GenPhysical(t *rapid.T, w *Workbook) {
 	o.NoStyles = rapid.IntRange(0, 6).Draw(t, "noStyles") == 0
 	o.NoDocProps = rapid.IntRange(0, 3).Draw(t, "noDocProps") == 0
 	o.NoTheme = rapid.IntRange(0, 2).Draw(t, "noTheme") == 0
+	o.SheetAttrOrder = rapid.SampledFrom([]int{0, 0, 0, 1, 2}).Draw(t, "sheetAttrOrder")
 	if rapid.IntRange(0, 9).Draw(t, "workbookPrefix") == 0 {
 		o.WorkbookPrefix = "x"
 	}
